@@ -115,7 +115,17 @@ func zzH11_float_hash() {
 // order; equal ints have equal hashes.
 //
 //verif:unwind 40
-func zzH11_int_int() {
+func zzH11_int_int() { zzIntInt() }
+
+// zzH11_int_int_repr: the same over the two other Int representations
+// (int_posix64.go with and without the address-space reservation).
+//
+//verif:unwind 40
+//verif:thorough
+//verif:config posix64 posix64-nommap
+func zzH11_int_int_repr() { zzIntInt() }
+
+func zzIntInt() {
 	B := zzParam("bits", 66, 70)
 	x, xv := zzSymInt("x", B)
 	y, yv := zzSymInt("y", B)
@@ -163,10 +173,11 @@ func zzSymFloatKJ(name string, P, j int) (f float64, k uint64, neg bool) {
 // equal hashes (Float.Hash -> finiteFloatToInt). Float regimes (zzChoice):
 //   - (+-)k*2^j with a fully symbolic 53-bit significand k and j from a list
 //     (quick: 1 and 11: the even integers 2^53..2^54 and the multiples of 2^11 in
-//     2^63..2^64; thorough: -1, 0, 1, 11, 12), which covers the 2^53 and 2^63/2^64
+//     2^63..2^64; thorough: 0, 1, 10, 11), which covers the 2^53 and 2^63/2^64
 //     representation boundaries;
-//   - thorough only: short significands k < 2^smallk with j in -2..1 (symbolic
-//     small floats: every trailing zero of the significand costs solver queries);
+//   - thorough only: short significands k < 4 with j in -1..1 (symbolic small
+//     floats 0.5 .. 6: every trailing zero of the significand costs solver queries,
+//     and a fractional part sends big.Rat through a GCD loop);
 //   - concrete floats 1.0, -2.5, 2^53+2, 2^64, +-1e300, +-0, +-Inf and NaN with a
 //     symbolic payload, against the symbolic int.
 //
@@ -189,11 +200,11 @@ func zzIntFloat(part int) {
 	var f float64
 	var lt, eq bool // reference: x < f, x == f
 	bigJ := []int{1, 11}
-	smallP := 3
+	smallP := 2
 	if zzParam("thorough_regimes", 0, 1) == 1 {
-		bigJ = []int{-1, 0, 1, 11, 12}
+		bigJ = []int{0, 1, 10, 11}
 	}
-	smallJ := []int{-2, -1, 0, 1}
+	smallJ := []int{-1, 0, 1}
 	type conc struct {
 		f     float64
 		num   zzW  // f * 2^scale
@@ -312,37 +323,47 @@ func zzH11_bool() {
 	zzReach("end")
 }
 
-// zzH11_num_triples: directly on the real code, over triples drawn from ints
-// (|v| < 2^bits), floats (+-)k*2^j with a full symbolic 53-bit significand
-// (j = 0; thorough: also j = 11 and j = -1) and the special floats NaN (thorough:
-// also +Inf): == is reflexive, symmetric and transitive, != is its negation,
-// exactly one of <, ==, > holds, <= is < or ==, < is transitive and respects ==,
-// and equal values have equal hashes.
-//
+// H11.1 triples: directly on the real code (no reference), over triples of
+// numbers: == is reflexive, symmetric and transitive, != is its negation, exactly
+// one of <, ==, > holds, <= is < or ==, < is transitive and respects ==, and
+// equal values have equal hashes.
+//   zzH11_triples_float: three floats, all bit patterns (hash part: see zzTriples)
+//   zzH11_triples_int:   three ints of the int64 range (both representations)
+//   zzH11_triples_mixed: (thorough) each element an int |v| < 2^64, a float
+//                        (+-)k*2^0 with a symbolic 53-bit significand, or NaN.
+
+func zzH11_triples_float() { zzTriples(0) }
+
+//verif:unwind 80
+func zzH11_triples_int() { zzTriples(1) }
+
 //verif:unwind 80
 //verif:concretize 8
-func zzH11_num_triples() {
-	B := zzParam("bits", 64, 66)
-	nk := zzParam("kinds", 3, 6)
+//verif:thorough
+func zzH11_triples_mixed() { zzTriples(2) }
+
+func zzTriples(mode int) {
 	var v [3]Value
+	hashable := true
 	for i := range v {
 		name := string(rune('a' + i))
-		switch zzChoice(name+"_kind", nk) {
+		switch mode {
 		case 0:
-			v[i], _ = zzSymInt(name, B)
+			f := zzF64(name + "_f")
+			v[i] = Float(f)
+			hashable = false // Float.Hash of huge finite floats needs a concrete exponent: zzH11_float_hash
 		case 1:
-			f, _, _ := zzSymFloatKJ(name, 53, 0)
-			v[i] = Float(f)
-		case 2:
-			v[i] = Float(math.NaN())
-		case 3:
-			f, _, _ := zzSymFloatKJ(name, 53, 11)
-			v[i] = Float(f)
-		case 4:
-			f, _, _ := zzSymFloatKJ(name, 53, -1)
-			v[i] = Float(f)
+			v[i] = MakeInt64(zzI64(name + "_i"))
 		default:
-			v[i] = Float(math.Inf(1))
+			switch zzChoice(name+"_kind", 3) {
+			case 0:
+				v[i], _ = zzSymInt(name, 64)
+			case 1:
+				f, _, _ := zzSymFloatKJ(name, 53, 0)
+				v[i] = Float(f)
+			default:
+				v[i] = Float(math.NaN())
+			}
 		}
 	}
 	cmp := func(op syntax.Token, a, b Value) bool {
@@ -366,8 +387,10 @@ func zzH11_num_triples() {
 	lbc, lac := cmp(syntax.LT, b, c), cmp(syntax.LT, a, c)
 	zzAssert(zzImplies(zzAnd(lab, lbc), lac), "C11.triples.transitive_lt")
 	zzAssert(zzImplies(zzAnd(lab, ebc), lac), "C11.triples.lt_respects_eq")
-	ha, _ := a.Hash()
-	hb, _ := b.Hash()
-	zzAssert(zzImplies(eab, ha == hb), "C11.triples.equal_values_equal_hash")
+	if hashable {
+		ha, _ := a.Hash()
+		hb, _ := b.Hash()
+		zzAssert(zzImplies(eab, ha == hb), "C11.triples.equal_values_equal_hash")
+	}
 	zzReach("end")
 }
